@@ -20,3 +20,30 @@ func VerifQuoteString(s string) string {
 func VerifTopoSort(pipeline *Pipeline) error {
 	return pipeline.topoSort()
 }
+
+// VerifClosedDeps returns, for each call id of the pipeline, the ids of the
+// calls in the dependency map which topoSort hands to its reordering loop
+// (direct dependencies closed by addNextDeps).
+func VerifClosedDeps(pipeline *Pipeline) (map[string][]string, error) {
+	depsMap, err := pipeline.directDepsMap()
+	if err != nil {
+		return nil, err
+	}
+	if err := pipeline.addNextDeps(depsMap); err != nil {
+		return nil, err
+	}
+	result := make(map[string][]string, len(depsMap))
+	for call, deps := range depsMap {
+		if call == nil {
+			continue
+		}
+		ids := make([]string, 0, len(deps))
+		for dep := range deps {
+			if dep != nil {
+				ids = append(ids, dep.Id)
+			}
+		}
+		result[call.Id] = ids
+	}
+	return result, nil
+}
